@@ -220,59 +220,108 @@ Fixpoint dec_fuel (fuel : nat) (n : N) (acc : bytes) : bytes :=
   end.
 Definition dec (n : N) : bytes := dec_fuel 20 n [].
 
-Definition name_change (original : bytes) : res bytes :=
-  match split_on DOT original with
-  | [] => Ok (original ++ [SPC; LPAR; 50; RPAR])                 (* parts.get_mut(0) is None *)
-  | first :: rest =>
-    let default := first ++ [SPC; LPAR; 50; RPAR] in
-    let? new_name :=
-      match rfind_sub [SPC; LPAR] first with
-      | None => Ok default
-      | Some paren_pos =>
-        let? tail := slice first paren_pos (length first) in     (* first_part[paren_pos..] *)
-        match find_sub [RPAR] tail with
-        | None => Ok default
-        | Some end_paren =>
-          let absolute_end_pos := (paren_pos + end_paren)%nat in
-          if (length first =? 0)%nat then Panic else             (* first_part.len() - 1 *)
-          if (absolute_end_pos =? length first - 1)%nat then
-            let num_start := (paren_pos + 2)%nat in
-            let? numstr := slice first num_start absolute_end_pos in
-            match parse_u32 numstr with
-            | Some number =>
-              if number =? 4294967295 then Ok default             (* checked_add(1) is None *)
-              else
-                let? base := slice first 0 paren_pos in
-                Ok (base ++ [SPC; LPAR] ++ dec (number + 1) ++ [RPAR])
-            | None => Ok default
-            end
-          else Ok default
-        end
-      end in
-    Ok (join_dots (new_name :: rest))
+(* split_first_label: byte position of the first unescaped dot (a backslash skips the byte
+   after it, whatever it is) *)
+Fixpoint first_dot_pos (s : bytes) : option nat :=
+  match s with
+  | [] => None
+  | c :: t =>
+    if c =? BSL then
+      match t with
+      | [] => None
+      | _ :: t' => option_map (fun n => S (S n)) (first_dot_pos t')
+      end
+    else if c =? DOT then Some O
+    else option_map S (first_dot_pos t)
   end.
 
-Definition hostname_change (original : bytes) : res bytes :=
-  match split_on DOT original with
-  | [] => Ok (original ++ [HYP; 50])
-  | first :: rest =>
-    let default := first ++ [HYP; 50] in
-    let? new_name :=
-      match rfind_sub [HYP] first with
-      | None => Ok default
-      | Some hyphen_pos =>
-        let? numstr := slice first (hyphen_pos + 1) (length first) in   (* first_part[hyphen_pos + 1..] *)
-        match parse_u32 numstr with
-        | Some number =>
-          if number =? 4294967295 then Ok default
-          else
-            let? base := slice first 0 hyphen_pos in
-            Ok (base ++ [HYP] ++ dec (number + 1))
-        | None => Ok default
-        end
-      end in
-    Ok (join_dots (new_name :: rest))
+(* (&name[..i], &name[i..]) at the first unescaped dot, or (name, "") *)
+Definition split_first_label (name : bytes) : res (bytes * bytes) :=
+  match first_dot_pos name with
+  | Some i =>
+    let? a := slice name 0 i in
+    let? b := slice name i (length name) in
+    Ok (a, b)
+  | None => Ok (name, [])
   end.
+
+Definition MAX_LABEL_LEN : nat := 63.
+
+(* `while !base.is_char_boundary(end) { end -= 1 }` *)
+Fixpoint back_to_boundary (s : bytes) (e : nat) : nat :=
+  if is_char_boundary s e then e
+  else match e with
+       | O => O
+       | S e' => back_to_boundary s e'
+       end.
+
+(* kept.bytes().rev().take_while(|b| *b == b'\\').count() *)
+Fixpoint leading_bsl (s : bytes) : nat :=
+  match s with
+  | c :: t => if c =? BSL then S (leading_bsl t) else O
+  | [] => O
+  end.
+Definition trailing_bsl (s : bytes) : nat := leading_bsl (rev s).
+
+(* label_with_suffix: base shortened (on a char boundary, not inside an escape sequence) so
+   that base + suffix fits into 63 bytes *)
+Definition label_with_suffix (base suffix : bytes) : res bytes :=
+  let e := back_to_boundary base (Nat.min (length base) (MAX_LABEL_LEN - length suffix)) in
+  let? kept := slice base 0 e in
+  let? kept' :=
+    (if (e <? length base)%nat && Nat.odd (trailing_bsl kept)
+     then (if (length kept =? 0)%nat then Panic                       (* kept.len() - 1 *)
+           else slice kept 0 (length kept - 1))
+     else Ok kept) in
+  Ok (kept' ++ suffix).
+
+Definition name_change (original : bytes) : res bytes :=
+  let? (first, rest) := split_first_label original in
+  let? default := label_with_suffix first [SPC; LPAR; 50; RPAR] in
+  let? new_name :=
+    match rfind_sub [SPC; LPAR] first with
+    | None => Ok default
+    | Some paren_pos =>
+      let? tail := slice first paren_pos (length first) in     (* first_part[paren_pos..] *)
+      match find_sub [RPAR] tail with
+      | None => Ok default
+      | Some end_paren =>
+        let absolute_end_pos := (paren_pos + end_paren)%nat in
+        if (length first =? 0)%nat then Panic else             (* first_part.len() - 1 *)
+        if (absolute_end_pos =? length first - 1)%nat then
+          let num_start := (paren_pos + 2)%nat in
+          let? numstr := slice first num_start absolute_end_pos in
+          match parse_u32 numstr with
+          | Some number =>
+            if number =? 4294967295 then Ok default             (* checked_add(1) is None *)
+            else
+              let? base := slice first 0 paren_pos in
+              label_with_suffix base ([SPC; LPAR] ++ dec (number + 1) ++ [RPAR])
+          | None => Ok default
+          end
+        else Ok default
+      end
+    end in
+  Ok (new_name ++ rest).
+
+Definition hostname_change (original : bytes) : res bytes :=
+  let? (first, rest) := split_first_label original in
+  let? default := label_with_suffix first [HYP; 50] in
+  let? new_name :=
+    match rfind_sub [HYP] first with
+    | None => Ok default
+    | Some hyphen_pos =>
+      let? numstr := slice first (hyphen_pos + 1) (length first) in   (* first_part[hyphen_pos + 1..] *)
+      match parse_u32 numstr with
+      | Some number =>
+        if number =? 4294967295 then Ok default
+        else
+          let? base := slice first 0 hyphen_pos in
+          label_with_suffix base ([HYP] ++ dec (number + 1))
+      | None => Ok default
+      end
+    end in
+  Ok (new_name ++ rest).
 
 (* ---- names taken from the wire ----------------------------------------------------------- *)
 
@@ -284,6 +333,12 @@ Definition present (wire_labels : list bytes) : bytes :=
 
 Definition wire_label_ok (l : bytes) : bool :=
   (1 <=? blen l) && (blen l <=? 63) && utf8_valid l && wf_bytesb l.
+
+(* read_name since 35da75b: the dotted text is returned only if it can be encoded again
+   (`!name_labels_fit(&name)` -> Err).  The reader itself is Model/Wire.v; this is its last
+   step applied to the labels it read. *)
+Definition read_name_fit (wire_labels : list bytes) : res bytes :=
+  if labels_fit (present wire_labels) then Ok (present wire_labels) else Err.
 
 (* every label of `name`, as the encoder splits it, passes write_utf8's assertion *)
 Definition encodable (name : bytes) : bool :=
